@@ -88,7 +88,24 @@ func c02Frames() []model.Frame {
 		derived("d", "q", "q", N, "p", "p", "\u017fr"),
 		ints("id", 0, 1, 2, 3, 4, 5),
 	}}
-	return []model.Frame{f0, f1, f2, f3, f4}
+	// 70 rows (one block of 64 plus a tail) drawn from the rows of f4 and f0 in a mixed order
+	f5 := model.Frame{N: 70}
+	for ci, c4 := range f4.Cols {
+		c0 := f0.Cols[ci]
+		nc := model.Col{Name: c4.Name, Kind: c4.Kind, EnumVals: c4.EnumVals}
+		for r := 0; r < 70; r++ {
+			switch {
+			case c4.Name == "id":
+				nc.Cells = append(nc.Cells, model.I(r))
+			case r%3 != 0:
+				nc.Cells = append(nc.Cells, c4.Cells[(r*5)%6])
+			default:
+				nc.Cells = append(nc.Cells, c0.Cells[r%5])
+			}
+		}
+		f5.Cols = append(f5.Cols, nc)
+	}
+	return []model.Frame{f0, f1, f2, f3, f4, f5}
 }
 
 func lf(col, cmp, kind string) model.Leaf { return model.Leaf{Col: col, Cmp: cmp, ArgKind: kind} }
@@ -572,7 +589,7 @@ func init() {
 		ID:    "C02",
 		Setup: func() { c02Env_() },
 		Level: "model_checking",
-		Rule: "case = (frame, index shape, clause tree). Tier A: every leaf of the ~600-leaf alphabet (all comparators x argument kinds x Inverse, per column type) alone and in 7 wrappers on 5 frames x 7 shapes; " +
+		Rule: "case = (frame, index shape, clause tree). Tier A: every leaf of the ~600-leaf alphabet (all comparators x argument kinds x Inverse, per column type) alone and in 7 wrappers on 6 frames (0-6 rows, and one of 70 rows) x 7 shapes; " +
 			"A2: every ordered pair of leaves under And/Or/Or(Not); B: every And/Or/Not tree with <=K leaf slots and bounded depth, every assignment of core leaves to the slots. " +
 			"Non-trivial = the clause keeps some but not all rows according to the model; distinct by (frame, clause text).",
 		Assumptions: []string{
